@@ -400,6 +400,20 @@ def build_instance(ctx, ob, idx):
     objs = [ctx.gotocc_obj(l, ob.libdefs) for l in ob.libs]
     d = ctx.scratch.sub("inst")
     out = os.path.join(d, "i%05d.gb" % idx)
+    stubs = getattr(ob, "stubs", None)
+    if stubs:
+        # kernels replaced by harness definitions: their bodies are removed from the library objects (goto-instrument), the harness' functions
+        # of the same name are linked instead; everything else in those objects is the real code
+        sd = ctx.scratch.sub("stub%05d" % idx)
+        new = []
+        for k, o in enumerate(objs):
+            o2 = os.path.join(sd, "s%d_%s" % (k, os.path.basename(o)))
+            cmdi = ["goto-instrument"] + sum([["--remove-function-body", f] for f in stubs], []) + [o, o2]
+            rc, oo, ee, w, to = run(cmdi, timeout=300)
+            if rc != 0 or not os.path.exists(o2):
+                raise BuildError("goto-instrument --remove-function-body failed for %s: %s" % (o, (oo + ee)[-800:]))
+            new.append(o2)
+        objs = new
     cmd = ["goto-cc", "-DNDEBUG", "-D__CPROVER__"] + CPU_HOOK + ["-I", SHIM, "-I", HARNESS, "-I", SRC] + sum([["-I", i] for i in ob.inc], []) + defs_args(ob.defs) + \
           ["-D" + x for x in ob.libdefs] + \
           [os.path.join(HARNESS, ob.harness)] + ob.extra_src + objs + ["-o", out, "--function", ob.entry]
